@@ -1,6 +1,7 @@
 import BoltonsVerif.Generated.Src_fileutils
 import BoltonsVerif.C05.Props
 import BoltonsVerif.C04.Props
+import BoltonsVerif.C05.SrcTieTactic
 /-
 C05 — source-translator tie (round 3c, effect mode: notes/SRCTIE.md §1f).
 
@@ -54,6 +55,7 @@ def liftU (r : Option Errno × M) : Except Exc Unit × M :=
   | (none, m) => (.ok (), erase m)
 
 def O_EXCL : Nat := 0o200
+@[simp] theorem conc_flags_excl : (131266 &&& O_EXCL != 0) = true := by decide
 
 /-- the model's file system under a fault plan as the operating system of the translated code -/
 def msys (plan : Plan) : Sys M Role Unit Unit Unit Unit where
@@ -82,7 +84,7 @@ def msys (plan : Plan) : Sys M Role Unit Unit Unit Unit where
   file_fileno _ m := (.ok (), m)
 
 /-- the attributes `__init__` leaves for a configuration (`part_file`: whatever an earlier use left) -/
-def conc (cfg : Cfg) (pf : Option Unit) : AtomicSaver.St Role Unit Unit Unit Unit where
+@[reducible] def conc (cfg : Cfg) (pf : Option Unit) : AtomicSaver.St Role Unit Unit Unit Unit where
   dest_path := .dest
   part_path := .part
   overwrite := cfg.overwrite
@@ -199,12 +201,12 @@ theorem liftU_congr {r r2 : Option Errno × M} (h : r.1 = r2.1 ∧ erase r.2 = e
 
 /-- unfold the combinators of the runtime (the semantics of the statements) -/
 macro "blk_simp" " [" ds:Lean.Parser.Tactic.simpLemma,* "]" : tactic =>
-  `(tactic| simp only [runMethod, runFunction, Blk.seq, Blk.ite, Blk.tryExcept, Blk.tryFinally, Blk.call, Blk.callm, Blk.skip,
+  `(tactic| simp only [runMethod, runFunction, finishMethod, finishFunction, Blk.seq, Blk.ite, Blk.tryExcept, Blk.tryFinally, Blk.tryFinally.after, Blk.call, Blk.callm, Blk.skip,
       Blk.assign, Blk.ret, Blk.raise, Blk.result, $ds,*])
 
 /-- … and finish: full `simp` with the same unfoldings -/
 macro "blk_done" " [" ds:Lean.Parser.Tactic.simpLemma,* "]" : tactic =>
-  `(tactic| simp [runMethod, runFunction, Blk.seq, Blk.ite, Blk.tryExcept, Blk.tryFinally, Blk.call, Blk.callm, Blk.skip,
+  `(tactic| simp [runMethod, runFunction, finishMethod, finishFunction, Blk.seq, Blk.ite, Blk.tryExcept, Blk.tryFinally, Blk.tryFinally.after, Blk.call, Blk.callm, Blk.skip,
       Blk.assign, Blk.ret, Blk.raise, Blk.result, $ds,*])
 
 /-- what an operation's result looks like to the code -/
@@ -233,5 +235,272 @@ theorem src_rm_part_on_exc_eq_model (cfg : Cfg) (pf : Option Unit) (plan : Plan)
   cases cfg.rmPartOnExc
   · simp
   · rcases call plan m .unlinkPart with ⟨_ | e, m1⟩ <;> blk_done [liftR, excOf_isException, erase]
+
+/-! ## `set_cloexec`, `replace`, `atomic_rename` -/
+
+/-- one round of evaluation: like `blk_done` but `finishMethod` / `finishFunction` (and whatever post-condition wraps
+    the two sides) stay folded, so that the term under evaluation occurs once -/
+macro "blk_eval" " [" ds:Lean.Parser.Tactic.simpLemma,* "]" : tactic =>
+  `(tactic| simp [runMethod, runFunction, Blk.seq, Blk.ite, Blk.tryExcept, Blk.tryFinally, Blk.tryFinally.after, Blk.call, Blk.callm, Blk.skip,
+      Blk.assign, Blk.ret, Blk.raise, liftU_eq, liftR, $ds,*])
+
+/-- evaluation only (for goals `Post … (model side) (source side)`): split until no call is left -/
+macro "tie_eval" " [" ds:Lean.Parser.Tactic.simpLemma,* "]" : tactic =>
+  `(tactic| ((try blk_eval [$ds,*]) <;> repeat' (tie_case <;> try blk_eval [$ds,*])))
+
+/-- symbolic evaluation of both sides: unfold the statement combinators and the given definitions, rewrite the
+    operations of `msys` into the model's calls, split on the result of the next call; repeat -/
+macro "tie_auto" " [" ds:Lean.Parser.Tactic.simpLemma,* "]" : tactic =>
+  `(tactic| ((try blk_done [liftU_eq, liftR, $ds,*]) <;>
+      repeat' (tie_case <;> try blk_done [liftU_eq, liftR, $ds,*])))
+
+/-- **`set_cloexec`**: whatever `fcntl.fcntl` answers in the model's world (it always answers), the function returns
+    normally and the world is unchanged - the transliteration does not mention it at all -/
+theorem src_set_cloexec_eq_model (plan : Plan) (fd : Unit) (m : M) :
+    set_cloexec (msys plan) fd m = (.ok (), m) := by
+  blk_done [set_cloexec, set_cloexec.body]
+
+/-- **`replace`** (posix) is one `os.rename` -/
+theorem src_replace_eq_model (plan : Plan) (m : M) :
+    replace (msys plan) .part .dest (erase m) = liftU (call plan m .renamePartDest) := by
+  tie_auto [replace, replace.body]
+
+/-- the part of the model's `publish` that is `atomic_rename(part, dest, overwrite)` -/
+def atomicRenameM (overwrite : Bool) (plan : Plan) (m : M) : Option Errno × M :=
+  if overwrite then call plan m .renamePartDest
+  else
+    match call plan m .linkPartDest with
+    | (some e, m1) => (some e, m1)
+    | (none, m1) => call plan m1 .unlinkPart
+
+theorem publish_eq_atomicRenameM (cfg : Cfg) (plan : Plan) (m : M) :
+    publish cfg plan m =
+      match atomicRenameM cfg.overwrite plan m with
+      | (some e, m1) => (.osErr e, rmPart cfg plan m1)
+      | (none, m1) => (.ok, m1) := by
+  unfold publish atomicRenameM
+  cases cfg.overwrite
+  · simp only [Bool.false_eq_true, if_false]
+    rcases call plan m .linkPartDest with ⟨_ | e, m1⟩ <;> simp only
+    rcases call plan m1 .unlinkPart with ⟨_ | e, m2⟩ <;> simp only
+  · simp only [if_true]
+    rcases call plan m .renamePartDest with ⟨_ | e, m1⟩ <;> simp only
+
+/-- **`atomic_rename(part, dest, overwrite)`** = the model's rename, or link followed by unlink of the part name -/
+theorem src_atomic_rename_eq_model (ow : Bool) (plan : Plan) (m : M) :
+    atomic_rename (msys plan) .part .dest ow (erase m) = liftU (atomicRenameM ow plan m) := by
+  cases ow <;> tie_auto [atomic_rename, atomic_rename.body, atomicRenameM]
+
+/-! ## `_open_part_file` -/
+
+/-- the part of the model's `setup` that is `_open_part_file()`: choice of the permission bits (explicit, else those of
+    the replaced file - `os.stat` -, else `RW_PERMS` subject to the umask), then `openPartFile` -/
+def openPartFileM (cfg : Cfg) (plan : Plan) (m : M) : Option Errno × M :=
+  match cfg.perms with
+  | some p => openPartFile cfg plan m p true
+  | none =>
+    match callStat plan m with
+    | (.error e, m2) => (some e, m2)
+    | (.ok (some mode), m2) => openPartFile cfg plan m2 mode true
+    | (.ok none, m2) => openPartFile cfg plan m2 RW_PERMS false
+
+theorem setup_eq_openPartFileM (cfg : Cfg) (plan : Plan) (m : M) :
+    setup cfg plan m =
+      if m.fs.dir.dest.isSome && !cfg.overwrite then (some EEXIST, { m with errs := m.errs + 1 }) else
+      match (if cfg.overwritePart && m.fs.dir.part.isSome then call plan m .unlinkPart else (none, m)) with
+      | (some e, m1) => (some e, m1)
+      | (none, m1) => openPartFileM cfg plan m1 := by
+  unfold setup openPartFileM
+  split
+  · rfl
+  · rcases (if cfg.overwritePart && m.fs.dir.part.isSome then call plan m .unlinkPart else (none, m)) with ⟨_ | e, m1⟩ <;> rfl
+
+/-- `os.stat(dest)` in the model's world: the mode of a regular file, `ENOENT`, or the plan's error -/
+theorem msys_stat (plan : Plan) (m : M) :
+    (msys plan).os_stat .dest (erase m) =
+      match callStat plan m with
+      | (.ok (some mode), m1) => (.ok ⟨0o100000 + mode⟩, erase m1)
+      | (.ok none, m1) => (.error (excOf ENOENT), erase m1)
+      | (.error e, m1) => (.error (excOf e), erase m1) := by
+  have h := callStat_erase plan m
+  show (match callStat plan (erase m) with
+      | (.ok (some mode), m1) => ((.ok ⟨0o100000 + mode⟩ : Except Exc StatRes), erase m1)
+      | (.ok none, m1) => (.error (excOf ENOENT), erase m1)
+      | (.error e, m1) => (.error (excOf e), erase m1)) = _
+  rcases h1 : callStat plan (erase m) with ⟨r1, m1⟩
+  rcases h2 : callStat plan m with ⟨r2, m2⟩
+  rw [h1, h2] at h
+  obtain ⟨rfl, h⟩ : r1 = r2 ∧ erase m1 = erase m2 := h
+  rcases r1 with e | _ | mode <;> simp only [erase_erase, h]
+
+/-- permission bits are 12 bits: what `stat.S_IMODE` of a regular file's `st_mode` gives back -/
+def ModesOk (fs : FS) : Prop := ∀ i ∈ fs.inodes, i.mode < 4096
+
+theorem destMode_lt {fs : FS} (h : ModesOk fs) {mode : Nat} (hm : fs.destMode = some mode) : mode < 4096 := by
+  unfold FS.destMode FS.inode? at hm
+  cases hd : fs.dir.dest with
+  | none => simp [hd] at hm
+  | some i =>
+    simp only [hd, Option.map_eq_some_iff] at hm
+    obtain ⟨ino, hi, rfl⟩ := hm
+    exact h ino (List.mem_of_getElem? hi)
+
+theorem env_inodes (m : M) (a : Act) : (m.env a).fs.inodes = m.fs.inodes := by
+  unfold M.env; split <;> rfl
+
+theorem callStat_mode_lt {plan : Plan} {m m2 : M} {mode : Nat} (h : ModesOk m.fs)
+    (hc : callStat plan m = (.ok (some mode), m2)) : mode < 4096 := by
+  unfold callStat at hc
+  split at hc
+  · split at hc <;> simp at hc
+  · simp only [Prod.mk.injEq, Except.ok.injEq] at hc
+    exact destMode_lt h hc.1
+  · simp only [Prod.mk.injEq, Except.ok.injEq] at hc
+    refine destMode_lt (fs := (m.env .appear).fs) ?_ hc.1
+    intro i hi; rw [env_inodes] at hi; exact h i hi
+
+theorem S_IMODE_reg {mode : Nat} (h : mode < 4096) : S_IMODE (32768 + mode) = mode := by
+  unfold S_IMODE; omega
+
+@[simp] theorem erase_cleanup (m : M) (b : Bool) : erase { m with cleanupFaulted := b } = erase m := rfl
+@[simp] theorem erase_errs (m : M) (k : Nat) : erase { m with errs := k } = erase m := rfl
+
+theorem excOf_enoent : (excOf ENOENT) = ⟨.osError, some 2, 0⟩ := by decide
+
+theorem excOf_stat_handler (e : Errno) (h : e ≠ ENOENT) :
+    (excOf e).isOSError = true → ((excOf e).errno != some 2) = true := by
+  unfold excOf; split
+  · intro _; simp; exact h
+  · split <;> simp
+
+/-- the object afterwards has the attributes of the same configuration (only `part_file` may have changed) -/
+def SameCfg (cfg : Cfg) (st : AtomicSaver.St Role Unit Unit Unit Unit) : Prop := st = conc cfg st.part_file
+
+theorem env_openf (m : M) (a : Act) : (m.env a).fs.openf = m.fs.openf := by
+  unfold M.env; split <;> rfl
+
+theorem exe_fail_openf {m m1 : M} {ev : Ev} {e : Errno} (h : exe m ev = (some e, m1)) : m1.fs.openf = m.fs.openf := by
+  unfold exe at h; split at h <;> simp at h
+  obtain ⟨_, rfl⟩ := h; rfl
+
+theorem call_fail_openf {plan : Plan} {m m1 : M} {ev : Ev} {e : Errno} (h : call plan m ev = (some e, m1)) :
+    m1.fs.openf = m.fs.openf := by
+  unfold call at h; split at h
+  · simp at h; obtain ⟨_, rfl⟩ := h; rfl
+  · exact exe_fail_openf h
+  · rw [exe_fail_openf h, env_openf]
+
+theorem exe_ok_step {m m1 : M} {ev : Ev} (h : exe m ev = (none, m1)) : m.fs.step ev = .ok m1.fs := by
+  unfold exe at h; split at h <;> simp at h
+  subst h; assumption
+
+theorem call_ok_step {plan : Plan} {m m1 : M} {ev : Ev} (h : call plan m ev = (none, m1)) :
+    ∃ fs0 : FS, fs0.openf = m.fs.openf ∧ fs0.step ev = .ok m1.fs := by
+  unfold call at h; split at h
+  · simp at h
+  · exact ⟨m.fs, rfl, exe_ok_step h⟩
+  · exact ⟨(m.env .appear).fs, env_openf m _, exe_ok_step h⟩
+
+theorem openPart_openf {fs fs1 : FS} {a b : Bool} {p : Nat} (h : fs.step (.openPart a b p) = .ok fs1) :
+    fs1.openf.isSome = true := by
+  simp only [FS.step, FS.openPart] at h
+  split at h
+  · split at h <;> simp at h; subst h; rfl
+  · simp at h; subst h; rfl
+
+/-- `openPartFile` with the file object's `close()` spelled `fclose` (the same thing while the object is open) -/
+def openPartFileF (cfg : Cfg) (plan : Plan) (m : M) (perms : Nat) (doChmod : Bool) : Option Errno × M :=
+  match call plan m (.openPart true true perms) with
+  | (some e, m1) => (some e, m1)
+  | (none, m1) =>
+    match call plan m1 .noop with
+    | (some e, m2) => (some ((call plan m2 .closeFd).1.getD e), rmPart cfg plan (call plan m2 .closeFd).2)
+    | (none, m2) =>
+      if doChmod then
+        match call plan m2 (.chmodPart perms) with
+        | (some e, m3) => (some ((fclose plan m3).1.getD e), rmPart cfg plan (fclose plan m3).2)
+        | (none, m3) => (none, m3)
+      else (none, m2)
+
+theorem openPartFile_eq_F (cfg : Cfg) (plan : Plan) (m : M) (perms : Nat) (doChmod : Bool) :
+    openPartFile cfg plan m perms doChmod = openPartFileF cfg plan m perms doChmod := by
+  unfold openPartFile openPartFileF
+  rcases h1 : call plan m (.openPart true true perms) with ⟨_ | e, m1⟩ <;> simp only
+  rcases h2 : call plan m1 .noop with ⟨_ | e, m2⟩ <;> simp only
+  cases doChmod <;> simp only [if_true, if_false, Bool.false_eq_true]
+  rcases h3 : call plan m2 (.chmodPart perms) with ⟨_ | e, m3⟩ <;> simp only
+  have hopen : m3.fs.openf.isSome = true := by
+    obtain ⟨fa, hfa, ha⟩ := call_ok_step h1
+    obtain ⟨fb, hfb, hb⟩ := call_ok_step h2
+    rw [call_fail_openf h3]
+    simp only [FS.step, Except.ok.injEq] at hb
+    rw [← hb, hfb]
+    exact openPart_openf ha
+  simp only [fclose, hopen, if_true]
+
+/-- `rmPart` depends on the configuration through `rm_part_on_exc` only -/
+def rmPartB (b : Bool) (plan : Plan) (m : M) : M := rmPart { rmPartOnExc := b } plan m
+theorem rmPart_eq (cfg : Cfg) (plan : Plan) (m : M) : rmPart cfg plan m = rmPartB cfg.rmPartOnExc plan m := rfl
+
+/-- `_rm_part_on_exc` on ANY object whose `part_path` is the part name (the form the other proofs use) -/
+theorem src_rm_part_raw (st : AtomicSaver.St Role Unit Unit Unit Unit) (plan : Plan) (m : M) (hp : st.part_path = .part) :
+    AtomicSaver.rm_part_on_exc (msys plan) st (erase m) = (.ok (), st, erase (rmPartB st.rm_part_on_exc plan m)) := by
+  cases hb : st.rm_part_on_exc <;>
+  tie_auto [AtomicSaver.rm_part_on_exc, AtomicSaver.rm_part_on_exc.body, rmPartB, rmPart, hb, hp, excOf_isException]
+
+/-- how a translated method relates to the model function it stands for: same exception (as the code sees it) or
+    normal return; the world is the model's, up to the ghost counters; the object keeps the attributes of its
+    configuration; and (`needFile`) after a normal return it holds the file object -/
+def TiePost (cfg : Cfg) (needFile : Bool) (r : Option Errno × M)
+    (res : Except Exc Unit × AtomicSaver.St Role Unit Unit Unit Unit × M) : Prop :=
+  res.1 = liftR r.1 ∧ res.2.2 = erase r.2 ∧ SameCfg cfg res.2.1 ∧
+    (needFile = true → r.1 = none → res.2.1.part_file = some ())
+
+theorem callStat_error_ne {plan : Plan} {m m2 : M} {e : Errno} (h : callStat plan m = (.error e, m2)) : e ≠ ENOENT := by
+  unfold callStat at h
+  split at h
+  · split at h <;> simp at h
+    obtain ⟨rfl, _⟩ := h; assumption
+  · simp at h
+  · simp at h
+
+attribute [local simp] src_set_cloexec_eq_model src_atomic_rename_eq_model
+
+/-- close the leaves of an evaluation: unfold the post-condition on the two concrete sides -/
+macro "tie_post" " [" ds:Lean.Parser.Tactic.simpLemma,* "]" : tactic =>
+  `(tactic| all_goals (simp [TiePost, finishMethod, finishFunction, Blk.result, SameCfg, liftR, $ds,*]))
+
+/-- **`AtomicSaver._open_part_file`** as regenerated from the source = the model's choice of permissions followed by
+    `openPartFile` (`os.open` with `O_EXCL`, `set_cloexec`, `os.fdopen`, `os.chmod`, and on a failure the clean-up:
+    close the file object or the descriptor, `_rm_part_on_exc()`, re-raise - a failing close replaces the exception):
+    same exception or normal return, same world; the object keeps its configuration and, on success, holds the
+    file object.  Hypothesis: permission bits of existing files are 12-bit numbers (`stat.S_IMODE` gives them back). -/
+theorem src_open_part_file_eq_model (cfg : Cfg) (pf : Option Unit) (plan : Plan) (m : M) (hm : ModesOk m.fs) :
+    TiePost cfg true (openPartFileM cfg plan m) (AtomicSaver.open_part_file (msys plan) (conc cfg pf) (erase m)) := by
+  simp only [openPartFileM, openPartFile_eq_F]
+  cases hp : cfg.perms with
+  | some p =>
+    simp only
+    tie_eval [AtomicSaver.open_part_file, AtomicSaver.open_part_file.body, openPartFileF, hp, unwrap, excOf_isException,
+      rmPart_eq, src_rm_part_raw]
+    tie_post [hp]
+  | none =>
+    rcases hcs : callStat plan m with ⟨e | _ | mode, m2⟩ <;> simp only
+    · have hne := callStat_error_ne hcs
+      cases hos : (excOf e).isOSError
+      · tie_eval [AtomicSaver.open_part_file, AtomicSaver.open_part_file.body, openPartFileF, hp, unwrap,
+          excOf_isException, rmPart_eq, src_rm_part_raw, msys_stat, hcs, hos]
+        tie_post [hp]
+      · have hno := excOf_stat_handler e hne hos
+        tie_eval [AtomicSaver.open_part_file, AtomicSaver.open_part_file.body, openPartFileF, hp, unwrap,
+          excOf_isException, rmPart_eq, src_rm_part_raw, msys_stat, hcs, hos, hno]
+        tie_post [hp]
+    · tie_eval [AtomicSaver.open_part_file, AtomicSaver.open_part_file.body, openPartFileF, hp, unwrap,
+        excOf_isException, rmPart_eq, src_rm_part_raw, msys_stat, hcs, excOf_enoent, Exc.isOSError, RW_PERMS]
+      tie_post [hp]
+    · have hlt := callStat_mode_lt hm hcs
+      tie_eval [AtomicSaver.open_part_file, AtomicSaver.open_part_file.body, openPartFileF, hp, unwrap,
+        excOf_isException, rmPart_eq, src_rm_part_raw, msys_stat, hcs, S_IMODE_reg hlt]
+      tie_post [hp]
 
 end C05
